@@ -10,7 +10,8 @@ Import ListNotations.
 Theorem source_facts :
   Gen_Body.chunk_size_is_nbytes = Some true /\ Gen_Body.pool_passes_body_pos = Some true /\
   Gen_Body.pool_see_other_clears_body_pos = Some true /\ Gen_Body.manager_keeps_body_pos = Some true /\
-  Gen_Body.see_other_unchunks = Some true /\ Gen_Body.methods_not_expecting_body <> None.
+  Gen_Body.see_other_unchunks = Some true /\ Gen_Body.rewind_without_seek_is_unrewindable = Some true /\
+  Gen_Body.methods_not_expecting_body <> None.
 Proof. repeat split; try reflexivity. discriminate. Qed.
 Print Assumptions source_facts.
 
